@@ -507,3 +507,22 @@ Proof.
   - exists s. split; [constructor | exact Hq].
   - destruct (IH s1 Hs) as (s2 & Hss & Hq). exists s2. split; [econstructor; eassumption | exact Hq].
 Qed.
+
+(** * 7. synchronous mode: the executable scheduler only takes steps of the LTS *)
+Lemma sexec_sound trigs react l s s' : sexec trigs react l s = Some s' -> sstep trigs react s s'.
+Proof.
+  destruct l as [i|]; cbn.
+  - destruct (nth_error (y_threads s) i) as [[|[cmds| |] rest]|] eqn:E; try discriminate; intros H; injection H as <-.
+    + apply Ss_append. exact E.
+    + apply Ss_send. exact E.
+    + apply Ss_reset. exact E.
+  - destruct (y_c s) as [|wr rest] eqn:E; [discriminate|]. intros H; injection H as <-. apply Ss_dispatch. exact E.
+Qed.
+
+Lemma sexec_all_sound trigs react ls : forall s s', sexec_all trigs react ls s = Some s' -> ssteps trigs react s s'.
+Proof.
+  induction ls as [|l ls IH]; intros s s' H; cbn in H.
+  - injection H as <-. constructor.
+  - destruct (sexec trigs react l s) as [s1|] eqn:E; [|discriminate].
+    econstructor; [apply (sexec_sound _ _ _ _ _ E) | apply IH; exact H].
+Qed.
